@@ -22,7 +22,8 @@ VisFor(mode) == IF mode = "fn" THEN {"", "pub", "pub(crate)", "pub(super)", "pub
 \* the item's own visibility (fn, mod); for trait inputs: the visibility keyword written in the attribute before the
 \* delegation-target trait's name - neither may influence the generated trait's visibility
 ItemVis == {"", "pub", "pub(crate)"}
-Locs == {"same", "child", "sibling", "parent", "other-crate"}
+\* "cousin": a module of the same crate outside the parent of D (a sibling of the parent)
+Locs == {"same", "child", "sibling", "parent", "cousin", "other-crate"}
 \* via: the name the probe uses: "name" = the user-visible name D::T; "inmod" (module inputs only) = the trait itself, D::m::T -
 \* probed only from locations that can name the module m at all, so that the verdict is about the trait
 Inputs0 == { i \in [mode : Modes, vis : UNION { VisFor(m) : m \in Modes }, itemvis : ItemVis, loc : Locs, via : {"name", "inmod"}] :
@@ -31,7 +32,7 @@ Inputs0 == { i \in [mode : Modes, vis : UNION { VisFor(m) : m \in Modes }, itemv
 P == <<"cases", "p">>
 D == P \o <<"d">>
 FromPath(loc) == CASE loc = "same" -> D [] loc = "child" -> D \o <<"child">> [] loc = "sibling" -> P \o <<"sibling">>
-                   [] loc = "parent" -> P [] loc = "other-crate" -> <<>>
+                   [] loc = "parent" -> P [] loc = "cousin" -> <<"cases", "q">> [] loc = "other-crate" -> <<>>
 SameCrate(loc) == loc # "other-crate"
 
 \* Level 2: the items the expansion defines, as [name, def (module path), vis]
